@@ -94,12 +94,12 @@ example : loadExisted { keepFull := false, flt := id, chk := id } [] [⟨⟨1, 1
 cached under its key (the last delivered version), the full object iff `keepFullObjectsInMemory`. -/
 theorem filter_applied (cfg : Cfg) (items : List Obj) (evs : List WatchEv) (e : Entry)
     (he : e ∈ runInformer cfg items evs) :
-    ∃ o, specAfter items evs e.key = some o ∧ o.key = e.key ∧ e.fr = cfg.flt o.content ∧
-      e.sum = cfg.chk (cfg.flt o.content) ∧
+    ∃ o, specAfter items evs e.key = some o ∧ o.key = e.key ∧
+      e.fr = (if cfg.hasFilter then cfg.flt o.content else 0) ∧
+      e.sum = (if cfg.hasFilter then cfg.chk (cfg.flt o.content) else cfg.chk o.content) ∧
       e.obj = (if cfg.keepFull then some o.content else none) := by
   obtain ⟨o, ho, rfl⟩ := (tracks_mem (tracks_runInformer cfg items evs) e).1 he
-  refine ⟨o, ho, (mkEntry_key cfg o).symm, mkEntry_fr cfg o, ?_, mkEntry_obj cfg o⟩
-  unfold mkEntry; split <;> rfl
+  exact ⟨o, ho, (mkEntry_key cfg o).symm, mkEntry_fr cfg o, mkEntry_sum cfg o, mkEntry_obj cfg o⟩
 
 /-! ## 2. Snapshot() = sorted union, order by key only, no duplicates -/
 
